@@ -160,10 +160,12 @@ CHECKS["C10"] = dict(
 
 CHECKS["C11"] = dict(
     title="priority queues",
-    units=[dict(name="pq", src="harness/pq.cpp", ldflags=BOOST)],
+    units=[dict(name="pq", src="harness/pq.cpp", ldflags=BOOST),
+           # the real initialized_dynamic_buffer under AddressSanitizer (quick-tier bounds; an ASan report is a violation 'C11:asan')
+           dict(name="pq-asan", src="harness/pq.cpp", cxxflags=["-DPQ_REAL_BUFFER"], ldflags=BOOST, asan=True, thorough_only=True, tier_args={"thorough": ["--tier", "quick"]})],
     rule=LIN_RULE,
     aux_names=["quiescent_states", "executions_checked_against_full_pq_spec", "aux2", "aux3"],
-    explanation="MSPriorityQueue (capacity() 1, 3, 7; spin and mutex node locks; heap arrays that are not a power of two through a bounds-checked buffer): conservation of the item multiset "
+    explanation="MSPriorityQueue (capacity() 1, 3, 7; spin and mutex node locks; heap arrays through a bounds-checked buffer, both rounded to a power of two like the default buffer and not rounded; thorough adds the default buffer under AddressSanitizer): conservation of the item multiset "
                 "incl. the final drain, push fails only if capacity items can have been present, quiescent heap shape (tags, heap order, counter), and full bounded max-PQ linearizability "
                 "for every history in which no push overlaps a pop; FCPriorityQueue (std::vector and std::deque back ends): full max-PQ linearizability with ties",
     design_ref="DESIGN.md 9/C11",
@@ -321,4 +323,24 @@ CHECKS["C24"] = dict(
                 "its capacity again without going to the heap (preallocated / bounded) or with exactly capacity - live objects new heap allocations (lazy). " + HB_NOTE,
     design_ref="DESIGN.md 9/C24, 7.5",
     level_text="Exhaustive within bounds on the real pools.",
+)
+
+CHECKS["C23"] = dict(
+    title="flat-combining kernel",
+    units=[dict(name="fc1", src="harness/fc.cpp", cxxflags=["-DFAMILY=1"], ldflags=BOOST),
+           dict(name="fc2", src="harness/fc.cpp", cxxflags=["-DFAMILY=2"], ldflags=BOOST),
+           dict(name="fc3", src="harness/fc.cpp", cxxflags=["-DFAMILY=3"], ldflags=BOOST),
+           dict(name="fc1-hb", src="harness/fc.cpp", cxxflags=["-DFAMILY=1"], ldflags=BOOST, args=["--hb"]),
+           dict(name="fc3-hb", src="harness/fc.cpp", cxxflags=["-DFAMILY=3"], ldflags=BOOST, args=["--hb"])],
+    rule="every schedule with <= c preemptions of requester programs over {combine, batch_combine, invoke_exclusive, thread exit} (all unordered pairs of 10 thread programs, plus 3-thread programs in which one thread "
+         "exits while another compacts or walks the publication list) on a minimal container that owns a real flat_combining::kernel; compact factor and combine pass count at their minimums (1 and 2; 1 and 2); "
+         "outcome = the log of requests, executions (who executed which request) and responses",
+    aux_names=["publication_records_allocated", "thread_exits_inside_window", "aux2", "aux3"],
+    explanation="kernel<Rec, Traits> with the wait strategies backoff, empty, single_mutex_single_condvar, single_mutex_multi_condvar, multi_mutex_multi_condvar (hook H4 makes their mutexes and condition variables "
+                "scheduler-aware; timed waits may time out at any point): per-request execution counter (exactly once, never after the response was taken), occupancy monitor of fc_apply / fc_process / invoke_exclusive "
+                "with a scheduling point inside and a check that the global lock is held, the response read by the requester is the value produced by the execution, final value = sum of requests; publication records come "
+                "from a quarantining allocator that reports deleted records to the engine: every instrumented access inside a deleted record is a use-after-free violation, double deletes are violations, records of "
+                "exited threads must be deleted after two further compactions and nothing may be left after the kernel is destroyed. " + HB_NOTE,
+    design_ref="DESIGN.md 9/C23, 7.5",
+    level_text="Exhaustive within bounds on the real kernel.",
 )
